@@ -354,7 +354,11 @@ func (fe *FE) Run() {
 	}
 	fe.resolveOwnFrame(st)
 	fe.smoke(st, "requires")
+	if fe.C.MergeJoins {
+		fe.computeRPO()
+	}
 	fe.runBlock(st, fn.Blocks[0], nil)
+	fe.drainJoins()
 	fe.checkPanicSafe()
 }
 
@@ -480,6 +484,10 @@ func (fe *FE) runBlock(st *State, b, pred *ssa.BasicBlock) {
 		return
 	}
 	fe.bindPhis(st, b, pred)
+	if pred != nil && !st.paniced && fe.isJoinBlock(b) {
+		fe.park(st, b)
+		return
+	}
 	fe.execBody(st, b, true)
 }
 
@@ -1538,6 +1546,24 @@ func (fe *FE) execConvert(st *State, x *ssa.Convert) Val {
 		eb, sb := 11, 53
 		if ts == SF32 {
 			eb, sb = 8, 24
+		}
+		if ts == SF64 {
+			// integer -> float64: the spec functions i2f / u2f of the SMT prelude (uninterpreted, constrained only at
+			// -1, 0, 1: a sound abstraction of the IEEE conversion)
+			var fw int
+			fmt.Sscanf(fs, "(_ BitVec %d)", &fw)
+			t := v.T
+			if fw < 64 {
+				ext := "zero_extend"
+				if isSignedT(from) {
+					ext = "sign_extend"
+				}
+				t = fmt.Sprintf("((_ %s %d) %s)", ext, 64-fw, v.T)
+			}
+			if isSignedT(from) {
+				return scalar("(i2f "+t+")", ts, to)
+			}
+			return scalar("(u2f "+t+")", ts, to)
 		}
 		if isSignedT(from) {
 			return scalar(fmt.Sprintf("((_ to_fp %d %d) RNE %s)", eb, sb, v.T), ts, to)
